@@ -184,6 +184,21 @@ func gridSubscript() []group {
 			}
 		}
 	}
+	// bounds that arrive as values (variable or document member) in every number representation,
+	// around the int32 limits and around integers
+	four := []any{float64(10), float64(20), float64(30), float64(40)}
+	for _, t := range []string{"2147483647", "2147483647.5", "2147483647.4", "2147483648", "2147483648.5", "-2147483648", "-2147483648.5", "-2147483648.9", "-2147483649", "-2147483649.5",
+		"0", "1", "1.9", "0.5", "-0.5", "-0.9999999999", "2.9999999999", "1e0", "1E0", "3", "4", "1e400", "-1e400", bigDigits, "9223372036854775808"} {
+		for _, v := range numReprs(t) {
+			vars := map[string]any{"b": v}
+			doc := map[string]any{"a": four, "b": v}
+			for _, mode := range []string{"", "strict "} {
+				for _, sub := range []string{"$b", "$b to 0", "0 to $b", "1 to $b", "$b to last", "$b, last", "last, $b"} {
+					gs = append(gs, group{mode + "$.a[" + sub + "]", doc, vars}, group{mode + "$.a[" + strings.ReplaceAll(sub, "$b", "$.b") + "]", doc, nil})
+				}
+			}
+		}
+	}
 	return gs
 }
 
@@ -217,6 +232,17 @@ func gridMethod() []group {
 				gs = append(gs, group{fmt.Sprintf("$.decimal(%d,%d)", p, sc), v, nil})
 			}
 		}
+	}
+	// the same values bound to a variable: the head of the chain is `$x`, not `$`
+	for _, v := range vals {
+		vars := map[string]any{"x": v}
+		for _, t := range []string{"$x", "$x.string()", "$x.type()", "$x.double()", "$x.number().string()", "$x.string() ? (@ like_regex \"0$\")", "$x == $", "strict $x.size()"} {
+			gs = append(gs, group{t, v, vars})
+		}
+	}
+	kvVars := map[string]any{"x": map[string]any{"b": map[string]any{"c": float64(1)}, "a": []any{float64(1)}}, "y": map[string]any{"k": float64(1)}}
+	for _, t := range []string{"$x.keyvalue()", "$x.b.keyvalue()", "$x.keyvalue().value", "$y.keyvalue()", "$x.keyvalue().key", "$ ? (exists($y.keyvalue())).keyvalue()", "$x.a[*].keyvalue()", "$x.*.keyvalue()"} {
+		gs = append(gs, group{t, map[string]any{"d": float64(1)}, kvVars}, group{"strict " + t, map[string]any{"d": float64(1)}, kvVars})
 	}
 	// keyvalue
 	objs := []any{map[string]any{"a": float64(1)}, map[string]any{"b": map[string]any{"c": float64(1)}, "a": []any{float64(1)}}, []any{map[string]any{"x": float64(1)}, map[string]any{"y": float64(2), "x": float64(3)}}}
@@ -380,6 +406,32 @@ func gridFail() []group {
 		for _, c := range consumers {
 			for _, mode := range []string{"", "strict "} {
 				gs = append(gs, group{mode + c, d, nil})
+			}
+		}
+	}
+	// the same through the members of an object (.keyvalue(), .*): the offending member first,
+	// in the middle, last, absent
+	names := []string{"a", "b", "c"}
+	objConsumers := []string{"$.keyvalue().value.double()", "$.keyvalue().value.integer()", "$ ? (@.keyvalue().value.double() > 2).c", "$.keyvalue().value.keyvalue().key",
+		"$.*.double()", "$.*.integer() + 1", "$ ? (@.*.double() > 2)", "exists($.keyvalue().value.double())", "$.keyvalue().value.double() > 2", "$.keyvalue() ? (@.value.double() > 2).key",
+		"$.keyvalue().value.n", "strict $.keyvalue().value.n", "-$.keyvalue().value", "$.*.n", "$.keyvalue().value.abs().string()"}
+	for n := 1; n <= 3; n++ {
+		for pos := 0; pos <= n; pos++ {
+			for _, b := range bad {
+				obj := map[string]any{}
+				for i := 0; i < n; i++ {
+					if i == pos {
+						obj[names[i]] = b
+					} else {
+						obj[names[i]] = good[i%3]
+					}
+				}
+				for _, c := range objConsumers {
+					gs = append(gs, group{c, obj, nil})
+					if !strings.HasPrefix(c, "strict ") {
+						gs = append(gs, group{"strict " + c, obj, nil})
+					}
+				}
 			}
 		}
 	}
